@@ -464,6 +464,14 @@ class Func:
                        "at": t["sp"]["at"]}
                 if pl:
                     uses[pl[0]].append(rec)
+        # stores through a pointer / reference `(*q).. = v` define what q points into
+        for bi, b in enumerate(self.blocks):
+            for si, st in enumerate(b["s"]):
+                if st["k"] == "assign" and len(st["p"]) > 1 and st["p"][1] == "*":
+                    for base in self._ptr_origins(st["p"][0], defs, set()):
+                        if base != st["p"][0]:
+                            defs[base].append({"bb": bi, "si": si, "kind": "store", "p": [base, "*"], "rv": st["rv"],
+                                               "srcs": rv_operands(st["rv"]), "at": st["sp"]["at"]})
         # calls mutate what their `&mut` arguments point to: add weak defs
         for bi, b in enumerate(self.blocks):
             t = b["t"]
@@ -478,6 +486,27 @@ class Func:
                                        "srcs": list(t["a"]), "at": t["sp"]["at"]})
         self._defs = defs
         self._uses = uses
+
+    def _ptr_origins(self, l, defs, seen):
+        """locals a pointer-like local may point into / be derived from (refs, raw pointers, casts,
+        field projections of smart-pointer internals)."""
+        if l in seen or len(seen) > 40:
+            return set()
+        seen.add(l)
+        out = set()
+        for d in defs.get(l, []):
+            if d["kind"] != "assign":
+                continue
+            rv = d["rv"]
+            pl = None
+            if rv[0] in ("ref", "rawptr"):
+                pl = rv[2]
+            elif rv[0] in ("use", "cast"):
+                pl = op_place(rv[1] if rv[0] == "use" else rv[2])
+            if pl:
+                out.add(pl[0])
+                out |= self._ptr_origins(pl[0], defs, seen)
+        return out
 
     def _mutref_origins(self, l, defs, seen):
         """locals that `l` (a `&mut` reference) may point into."""
@@ -540,6 +569,54 @@ class Func:
             return True
         return b2 in self.reach_plus(d["bb"])
 
+    def reaching_defs(self, l, pos):
+        """definitions of local `l` that may reach `pos`, with kills: a whole-local definition d2
+        hides an earlier d1 when every path from d1 to pos passes through d2."""
+        ds = [d for d in self.defs(l) if self._def_reaches(d, pos)]
+        if pos is None or len(ds) <= 1:
+            return ds
+        key = (l, pos)
+        cache = self.__dict__.setdefault("_rd_cache", {})
+        if key in cache:
+            return cache[key]
+
+        def dpos(d):
+            return (d["bb"], d["si"] if d["si"] is not None else self.INF)
+        strong = [d for d in ds if d["kind"] in ("assign", "call") and d.get("p") and len(d["p"]) == 1]
+        out = []
+        for d1 in ds:
+            killed = False
+            b1, s1 = dpos(d1)
+            for d2 in strong:
+                if d2 is d1:
+                    continue
+                b2, s2 = dpos(d2)
+                if b2 == b1:
+                    if not (s1 < s2):
+                        continue
+                    # same block, d2 later: kills d1 for uses after d2 in this block and beyond,
+                    # unless the block is on a cycle that re-enters between them (impossible within a block)
+                    if pos[0] == b1 and not (s2 < pos[1]):
+                        continue
+                    killed = True
+                    break
+                if b2 == pos[0]:
+                    if s2 < pos[1] and b1 != pos[0] and not (b2 in self.reach_plus(b2) and False):
+                        # every path into this block reaches d2 before pos
+                        killed = True
+                        break
+                    continue
+                # different blocks: d2 kills d1 if pos is unreachable from d1 without entering b2
+                if b2 in self.reach_plus(b1):
+                    r = self.reach([t for t, _ in self.succ(b1)], cut_blocks=[b2])
+                    if pos[0] not in r and not (pos[0] == b1 and s1 < pos[1]):
+                        killed = True
+                        break
+            if not killed:
+                out.append(d1)
+        cache[key] = out
+        return out
+
     def backward_slice(self, start_locals, stop_calls=(), at=None):
         """Backward slice from a set of locals as read at position `at` = (bb, stmt index)
         (None = anywhere: flow-insensitive).  A definition is followed only if it can reach the
@@ -563,9 +640,7 @@ class Func:
             locs.add(l)
             if 1 <= l <= self.argc:
                 res["args"].add(l)
-            for d in self.defs(l):
-                if not self._def_reaches(d, pos):
-                    continue
+            for d in self.reaching_defs(l, pos):
                 dpos = (d["bb"], d["si"] if d["si"] is not None else self.INF)
                 if d["kind"] in ("call", "call-mut"):
                     res["calls"].add(d["bb"])
